@@ -222,6 +222,16 @@ Fixpoint ws_read_loop (fuel : nat) (acc : str) (src : list str) : outcome (optio
   end.
 Definition ws_read_first (useg : list str) : outcome (option (str * list str)) := ws_read_loop 12%nat [] useg.
 
+(* ws_handler.go:39-69: what the http server had read beyond the upgrade request is in the
+   hijacked bufio reader ([buffered]: bytes the client sent in the request's segment, and the one
+   byte the server's background read may have taken); since fix commit 66d5585 it is copied to the
+   upstream right after the request, ahead of what the relay then reads from the connection.
+   The unrepaired handler discarded the reader (kept for C09_ws_early_bytes_refuted). *)
+Definition ws_client_stream (buffered : str) (rest : list str) : outcome str :=
+  do c <- copy_buffer rest; Ok (buffered ++ c).
+Definition ws_client_stream_unrepaired (buffered : str) (rest : list str) : outcome str :=
+  copy_buffer rest.
+
 (* the unrepaired handshake step (before 9c9f13b), kept only for C09_ws_split_101_refuted:
    a single out.Read(b); [useg1] = the upstream's first segment *)
 Definition ws_first_chunk_unrepaired (useg1 : str) : str := firstn 1024 useg1.
@@ -509,20 +519,22 @@ Definition spec_req_eof (U R : N) (cw_in cerr cwait : bool) (ce : cend) (ut : ut
   cw_in && negb cerr && spec_safe U ut ue &&
   ((spec_early U ut && match ue with UStay => false | _ => true end) || spec_req_ends U R cwait ce ut).
 
-Definition spec_core (sup reply : str) (cw_in cerr cwait : bool) (ce : cend) (ut : utrig) (ue : uend)
-    (o_up o_cl : str) (o_ended o_eof : bool) : bool :=
+Definition spec_core (sup reply : str) (cwait : bool) (ce : cend) (ut : utrig) (ue : uend)
+    (o_up o_cl : str) : bool :=
   let U := nlen' sup in
   let R := nlen' reply in
   is_prefix o_up sup && is_prefix o_cl reply
   && (if spec_req_up U ut ue then beq o_up sup else true)
-  && (if spec_req_cl U R cwait ce ut ue then beq o_cl reply else true)
-  && (if spec_req_ends U R cwait ce ut then o_ended else true)
-  && (if spec_req_eof U R cw_in cerr cwait ce ut ue then o_eof else true).
+  && (if spec_req_cl U R cwait ce ut ue then beq o_cl reply else true).
+(* Whether the tunnel returns by itself and whether the client sees EOF are not part of the
+   property's statement: they are compared with the model in the correspondence ([e_ends],
+   [e_cl_eof]; a deviation is a correspondence break, not a property failure).  [spec_req_ends]
+   and [spec_req_eof] say when the model itself guarantees them (Proofs: expect_ends, expect_eof). *)
 
-Definition spec_b (k : kind) (pp : bool) (line stream : str) (fin : N) (cw_in cwait : bool) (ce : cend) (ut : utrig)
-    (reply : str) (ue : uend) (o_up o_cl : str) (o_ended o_eof : bool) : bool :=
+Definition spec_b (k : kind) (pp : bool) (line stream : str) (cwait : bool) (ce : cend) (ut : utrig)
+    (reply : str) (ue : uend) (o_up o_cl : str) : bool :=
   if negb (tunnelled k stream reply) then true
-  else spec_core (spec_upstream k pp line stream) reply cw_in (1 <? fin) cwait ce ut ue o_up o_cl o_ended o_eof.
+  else spec_core (spec_upstream k pp line stream) reply cwait ce ut ue o_up o_cl.
 
 (* an observation lies within an expectation: a prefix of the full stream with a length in [lo, hi] *)
 Definition within (obs full : str) (lo hi : N) : bool :=
@@ -532,7 +544,7 @@ Definition within (obs full : str) (lo hi : N) : bool :=
 (* F-C09-1 (bytes stuck in the bufio.Reader) was repaired by c17abb6: no region *)
 (* F-C09-2 (a half-closing client lost the reply; first EOF closed both connections) was
    repaired by e0f2d05: no region *)
-(* F-C09-5: the upstream half-closes while client bytes are still on their way and the client
+(* F-C09-7 (open): the upstream half-closes while client bytes are still on their way and the client
    connection cannot be closed for writing only (tunnel.go closeWrite -> io.EOF): the tunnel
    ends at once and the rest of the client's stream is not delivered although the upstream
    still reads.  (proxy/tcp/server.go wraps every accepted connection in a type without
